@@ -267,14 +267,22 @@ public:
     tracer().emit(Obj().kv("e", "Factor").kv("o", o).kv("cls", std::string(1, c)).kv("A", matJ(*m)).kv("r", res));
     if (res == "ok") objs[o] = std::move(x);
   }
+  // copy construction (to is fresh) or assignment into a live object that held another factorisation
   void copy(int from, int to)
   {
     setCur("Copy");
-    LuObj x;
-    x.a = objs.at(from).a;
-    x.lu.reset(new bpp::LUDecomposition<S>(*objs.at(from).lu));
-    objs[to] = std::move(x);
-    tracer().emit(Obj().kv("e", "Copy").kv("o", from).kv("o2", to));
+    bool assign = objs.count(to) != 0;
+    std::string res = outcome<bpp::Exception>([&]() {
+      if (assign) *objs.at(to).lu = *objs.at(from).lu;
+      else
+      {
+        LuObj x;
+        x.lu.reset(new bpp::LUDecomposition<S>(*objs.at(from).lu));
+        objs[to] = std::move(x);
+      }
+    });
+    objs.at(to).a = objs.at(from).a;
+    tracer().emit(Obj().kv("e", "Copy").kv("o", from).kv("o2", to).kv("how", assign ? "assign" : "ctor").kv("r", res));
   }
   // ranks of |U_ii| among their sorted distinct values, rank of `ret` (or -1), "smallest pivot below the threshold"
   void pivotRanks(const BM& U, double ret, bool haveRet, Obj& e)
@@ -462,6 +470,7 @@ public:
       if (!objs.count(1)) continue;
       long len = rng.range(2, 6);
       int next = 2;
+      if (rng.chance(1, 3)) factor(next++, genMatrix(1 + rng.below(maxN)), cls()); // a second object, so that assignments have a target
       for (long i = 0; i < len; ++i)
       {
         std::vector<int> ids;
@@ -476,12 +485,19 @@ public:
           if (rng.chance(1, 7)) rows = rng.coin() ? no + 1 : (no > 1 ? no - 1 : no + 2); // wrong height
           solve(o, rows, 1 + rng.below(4), cls(), cls());
         }
-        else if (r < 68 && next < 4)
+        else if (r < 70)
         {
-          if (rng.coin()) copy(o, next++);
-          else factor(next++, genMatrix(1 + rng.below(maxN)), cls());
+          // copy-construct a new object, assign over another live one (of any size), or factorise another matrix
+          std::vector<int> others;
+          for (int x : ids)
+            if (x != o) others.push_back(x);
+          size_t k = rng.below(3);
+          if (k == 0 && !others.empty()) copy(o, others[rng.below(others.size())]);
+          else if (next < 5 && k <= 1) copy(o, next++);
+          else if (next < 5) factor(next++, genMatrix(1 + rng.below(maxN)), cls());
+          else inspect(o);
         }
-        else if (r < 78) inverse(objs.at(o).a, cls(), cls());
+        else if (r < 79) inverse(objs.at(o).a, cls(), cls());
         else if (r < 86) detWrapper(objs.at(o).a, cls());
         else if (r < 93) detTranspose(objs.at(o).a, cls(), cls());
         else
